@@ -11,7 +11,7 @@ def gen(rep, suite, module, cfgs, replay_cmd, clauses, hashseeds=(0,), driver="d
     for label, cfg in cfgs:
         r = engine.run_tlc(module, cfg, timeout=1800)
         rep.add_mc(r, f"{module} {label}")
-        cases = [c for _, c in r.prints]
+        cases = [dict(c, _n=i) for i, (_, c) in enumerate(r.prints)]
         if not cases:
             raise engine.MachineryError(f"{module} [{label}] emitted no cases\n{r.out[-1500:]}")
         cp = os.path.join(sc, f"{suite}_cases.json")
